@@ -48,4 +48,22 @@ def bind (j : Json) : Json := Id.run do
         spec := false; note := s!"call {ca[0]!.compress}: specification {sp} impl {impl}"
   return J.obj [("id", J.get j "id"), ("agree", agree), ("spec", spec), ("n", n), ("note", note)]
 
+/-- kind `typed`: rows [type of the argument, getter asked, outcome].  A typed getter (GetParamInt, …) hands
+    over the argument exactly when it has that type and reports an error otherwise -/
+def typed (j : Json) : Json := Id.run do
+  let mut spec := true
+  let mut note := ""
+  let mut n := 0
+  for r in J.arr (J.get j "rows") do
+    let a := J.arr r
+    let typ := J.str a[0]!
+    let getter := J.str a[1]!
+    let res := J.str a[2]!
+    n := n + 1
+    let want := if typ == getter then "value" else "error"
+    if res != want then
+      spec := false
+      if note == "" then note := s!"the {getter} getter on an argument of type {typ}: {res}, expected {want}"
+  return J.obj [("id", J.get j "id"), ("agree", true), ("spec", spec), ("n", n), ("note", note)]
+
 end DrvBind
